@@ -156,20 +156,23 @@ DevFacts ==
   /\ ~Explained([sb EXCEPT !.inc.rE = 6, !.inc.pt = "electron", !.aborted = TRUE], {"C04.DrawBound"})
   /\ ~Explained([sb EXCEPT !.aborted = TRUE], {"C04.DrawBound"})
 
-VARIABLES todo, nfaults
-vars == <<todo, nfaults>>
-Init == todo = LegalCases /\ nfaults = 0
-Next == \E c \in todo :
-          /\ todo' = todo \ {c}
-          /\ nfaults' = nfaults + Cardinality(Faults(c))
+CaseSeq == SetToSeq(LegalCases)
+VARIABLES i, nfaults      \* i: next case to examine (one state per case: linear state graph)
+vars == <<i, nfaults>>
+Init == i = 1 /\ nfaults = 0
+Next == /\ i <= Len(CaseSeq)
+        /\ i' = i + 1
+        /\ nfaults' = nfaults + Cardinality(Faults(CaseSeq[i]))
 Spec == Init /\ [][Next]_vars
 
-\* every canonical outcome still to be examined is accepted, and every fault is caught by
-\* exactly the expected clauses
-GoodAccepted == \A c \in todo : Clauses(G(c)) = {}
-FaultsCaught == \A c \in todo : \A f \in Faults(c) :
+\* the canonical outcome of the case under examination is accepted, and every fault applied
+\* to it is caught by exactly the expected clauses
+Here == IF i <= Len(CaseSeq) THEN {CaseSeq[i]} ELSE {}
+GoodAccepted == \A c \in Here : Clauses(G(c)) = {}
+FaultsCaught == \A c \in Here : \A f \in Faults(c) :
                    \/ Clauses(f[2]) = f[3]
                    \/ (PrintT(<<"UNEXPECTED", c, f[1], Clauses(f[2]), f[3]>>) /\ FALSE)
+Report == (i = Len(CaseSeq) + 1) => PrintT(<<"SUMMARY", "cases", Len(CaseSeq), "faults", nfaults>>)
 DeviationsScoped == DevFacts
 \* Livermore with relaxation: may reserve 1 + maxsec and return fewer
 LivermoreReserve ==
